@@ -12,7 +12,7 @@ import itertools
 
 from .. import AnalysisError
 from ..finite import AttrObj, ConstEval, Undecidable
-from ..anchors import condition_parser, condition_writer, path_parser
+from ..anchors import condition_parser, condition_writer, path_parser, filter_hook_name, filter_impl
 from ..program import FuncInfo, norm, head
 from ..report import Finding, RuleResult
 
@@ -205,7 +205,7 @@ def _count_stmt(st, name):
 def rule_once_c01(ctx):
     prog = ctx.prog
     r = RuleResult("R-ONCE/C01", floor=4)
-    f = prog.flat("conditions.Condition._filter")
+    f = filter_impl(prog, "conditions.Condition")
     where = f"{f.file}:{f.node.lineno}"
     # the lists handed to FilteredData(...)
     ret = None
@@ -562,11 +562,11 @@ def rule_chain(ctx):
         slots["dunder operands"] = [norm(a) for a in rv.args] if isinstance(rv, ast.Call) else None
         fl = c.lookup("FLATTEN_SYMBOL")[1]
         slots["FLATTEN_SYMBOL"] = fl.value if isinstance(fl, ast.Constant) else None
-        filt = c.methods.get("_filter")
+        filt = c.methods.get(filter_hook_name(prog))
         passed = None
         if filt:
             for n in ast.walk(filt.node):
-                if isinstance(n, ast.Call) and isinstance(n.func, ast.Attribute) and n.func.attr == "_filter" and len(n.args) >= 2:
+                if isinstance(n, ast.Call) and isinstance(n.func, ast.Attribute) and n.func.attr == filter_hook_name(prog) and len(n.args) >= 2:
                     passed = ast.unparse(n.args[1])
         slots["_filter passes"] = passed
         fd = fdl.lookup_method(dunder)
@@ -599,10 +599,10 @@ def rule_chain(ctx):
         else:
             r.ok()
     # same-source / element-wise
-    bf = prog.flat("conditions.ConditionBinaryOp._filter")
+    bf = filter_impl(prog, "conditions.ConditionBinaryOp")
     inst = {"check": "every child filters the same data object"}
     r.instances.append(inst)
-    calls = [n for n in ast.walk(bf.node) if isinstance(n, ast.Call) and isinstance(n.func, ast.Attribute) and n.func.attr == "_filter" and n.args]
+    calls = [n for n in ast.walk(bf.node) if isinstance(n, ast.Call) and isinstance(n.func, ast.Attribute) and n.func.attr == filter_hook_name(prog) and n.args]
     dparam = bf.params[1].name if len(bf.params) > 1 else "data"
     ok = bool(calls) and all(isinstance(cn.args[0], ast.Name) and cn.args[0].id == dparam for cn in calls)
     ok = ok and all(any(k.arg == "source_data" and norm(k.value) == "source_data" for k in cn.keywords) for cn in calls)
